@@ -58,5 +58,23 @@ Proof.
 Qed.
 Print Assumptions C15_resolution_change.
 
+(* map_between_resolutions of the source: every array statement is compared with its expected text and the decisions (early return,
+   the two oddball-mask conditions, the grid whose mode blocks are copied, the scaling modes) are re-translated on every run
+   (harness/translate/resample.py -> Gen/ResampleGen.v); they are the decisions of the model, for all grid sizes and wavenumber vectors.
+   The callees (scaling arrays, oddball mask, mode slices, shapes) are tied by C04_code_layout_is_model_layout / C04_code_scaling_and_slices_are_model. *)
+From EXV Require Import Gen.ResampleGen Tie.ResampleTie.
+Theorem C15_code_resampling_decisions_are_model : forall (K : Ops) (n m : Z) (oz : bool) (old : list Z -> K) (k : list Z),
+  resample_coef K n m oz old k =
+    (if gen_mbr_identity n m then old k
+     else if vec_copied (gen_mbr_block_size n m) k
+             && (if gen_mbr_mask_old n m oz then odd_ok n k else true)
+             && (if gen_mbr_mask_new n m oz then odd_ok m k else true)
+          then omul (fpow (odiv (fz m) (fz n)) (length k)) (old k) else o0)
+  /\ gen_mbr_scaling_mode_old = 10%Z /\ gen_mbr_scaling_mode_new = 10%Z /\ mode_denoms 10 = (1, 1)%Z.
+Proof.
+  intros K n m oz old k. split; [apply resample_coef_tie|]. exact scaling_modes_tie.
+Qed.
+Print Assumptions C15_code_resampling_decisions_are_model.
+
 Example C15_ex : resample_keeps 6 9 true [-2; 2]%Z = true /\ resample_keeps 6 9 true [-3; 1]%Z = false /\ resample_keeps 9 6 true [4; 1]%Z = false.
 Proof. repeat split; reflexivity. Qed.
